@@ -44,7 +44,7 @@ impl VM {
             }),
     {
 //@LOOP 1 invariant old(self).stack@.len() >= 1, self.frames == old(self).frames, self.globals == old(self).globals, self.instructions == old(self).instructions, self.ip == old(self).ip + 1, self.bp == old(self).bp, num_locals >= num_args as u32, num_locals <= 0xFFFF, self.stack@.len() == old(self).stack@.len() - 1 + __it.index@, self.stack@.subrange(0, old(self).stack@.len() - 1) =~= old(self).stack@.drop_last(), forall|i: int| old(self).stack@.len() - 1 <= i < self.stack@.len() ==> self.stack@[i] == spec_null(),
-//@ARM file=vm.rs fn=run_code impl=VM arm="OpCode::Call" rules="R1;R2;R4;R10;R3[base_pointer as u16=>cast_usize_u16(base_pointer)];R3[u16::MAX as usize=>0xFFFFusize]"
+//@ARM file=vm.rs fn=run_code impl=VM arm="OpCode::Call" rules="R1;R2;R4;R10;R3[u16::MAX as usize=>0xFFFFusize]"
         Ok(())
     }
 
